@@ -12,7 +12,8 @@ SOURCES = ['src/geodesy/ENUConverter.cpp', 'src/geodesy/ECEFConverter.cpp', 'src
 # ECEFConverter.cpp is an anchored file of C02 too (toWGS84 / toECEF are called by every geodetic overload): the C01 bridge —
 # ECEFConverter as translated from today's source = the model — is therefore an obligation of this check as well
 # (stage G below regenerates Generated/SrcC01.lean through c01.regen)
-PROOF_MODULES = ['RomeaProofs.Properties.C02', 'RomeaProofs.Bridge.C01', 'RomeaProofs.Bridge.C01Cor']
+PROOF_MODULES = ['RomeaProofs.Properties.C02', 'RomeaProofs.Bridge.C01', 'RomeaProofs.Bridge.C01Cor',
+                 'RomeaProofs.Bridge.C02', 'RomeaProofs.Bridge.C02Cor']
 TRUSTED = ['the model mirrors Eigen 3.4 fixed-size code paths (Transform*Vector3d, Transform::inverse by 3x3 cofactors); that they '
            'are what the compiled code does is checked by the correspondence run (bit-exact on this image), not proved',
            'the probe computes its reference frame (up = ellipsoid normal, east = z x up normalised, north = up x east; anchor '
@@ -32,6 +33,34 @@ EXPLANATION = ('Lean theorems (frame matrix is a proper rotation with columns ea
 
 # stage G: the GRS80 axes (and EPSILON of the latitude loop used by toWGS84) are regenerated exactly as for C01
 from props import c01 as _c01
+import bridge
+
+
+# stage G, tie no. 2 (DESIGN.md 2.5b): the ENUConverter member functions themselves, translated from today's source
+# (Eigen::Affine3d = the coefficients of its 4x4 matrix; `.linear() .translation()` views, comma initialisers, `Transform * vector`,
+# `Transform::inverse()` are read as Eigen 3.4 computes them — tools/cxx2lean.py, phase 3)
+V3 = '(const Eigen::Vector3d &) const'
+BRIDGE_SPEC = {
+    'id': 'C02',
+    'extra_filters': ['EPSILON'],      # the latitude loop of ECEFConverter::toWGS84 (called by ENUConverter::toWGS84)
+    'sources': ['src/geodesy/ENUConverter.cpp', 'src/geodesy/ECEFConverter.cpp', 'src/geodesy/EarthEllipsoid.cpp',
+                'src/geodesy/GeodeticCoordinates.cpp', 'src/geodesy/WGS84Coordinates.cpp'],
+    'functions': [
+        # the default constructor restricted to the three members of the model's state (`ecefConverter_()` takes the default
+        # argument EarthEllipsoid::GRS80: the ellipsoid is a parameter of every translated function, as in the model)
+        {'cxx': 'ENUConverter::ENUConverter', 'sig': 'void ()', 'outputs': ['wgs84Anchor_', 'enu2ecef_', 'isAnchored_']},
+        {'cxx': 'ENUConverter::setAnchor'},
+        {'cxx': 'ENUConverter::reset'},
+        {'cxx': 'ENUConverter::isAnchored'},
+        {'cxx': 'ENUConverter::toECEF', 'sig': 'Eigen::Vector3d ' + V3, 'suffix': '_v'},
+        {'cxx': 'ENUConverter::toECEF', 'sig': '(double, double, double)', 'suffix': '_xyz'},
+        {'cxx': 'ENUConverter::toWGS84', 'sig': 'GeodeticCoordinates ' + V3, 'suffix': '_v'},
+        {'cxx': 'ENUConverter::toWGS84', 'sig': '(double, double, double)', 'suffix': '_xyz'},
+        {'cxx': 'ENUConverter::toENU', 'sig': 'Eigen::Vector3d ' + V3, 'suffix': '_v'},
+        {'cxx': 'ENUConverter::toENU', 'sig': '(const romea::core::GeodeticCoordinates &)', 'suffix': '_geo'},
+        {'cxx': 'ENUConverter::toENU', 'sig': '(const romea::core::WGS84Coordinates &)', 'suffix': '_wgs'},
+    ],
+}
 
 
 def regen(ctx):
@@ -40,7 +69,11 @@ def regen(ctx):
                         'through that overload is inherited from the previous anchor; the point still maps to the origin, the '
                         'property as stated is met (modelled in Book.step / theorem auto_anchor_wgs_maps_to_origin, exercised by '
                         'the reset-scenario cases)')
-    return _c01.regen(ctx)
+    info = _c01.regen(ctx)
+    c01_bridge = info.get('bridge')
+    info.update(bridge.regen_bridge(ctx, BRIDGE_SPEC))      # Generated/SrcC02.lean (key 'bridge'); C01's info is kept as 'bridge_c01'
+    info['bridge_c01'] = c01_bridge
+    return info
 
 A, B = 6378137.0, 6356752.314
 LATMAX = math.radians(85.0)
